@@ -74,7 +74,12 @@ class Date(FormattableMixin, date):
 
     @property
     def week_of_month(self) -> int:
-        return math.ceil((self.day + self.first_of("month").isoweekday() - 1) / 7)
+        # The weekday of the first of the month is a matter of the calendar:
+        # first_of("month") of a DateTime is an instant and can be moved by a
+        # skipped midnight
+        first_weekday = date(self.year, self.month, 1).isoweekday()
+
+        return math.ceil((self.day + first_weekday - 1) / 7)
 
     @property
     def age(self) -> int:
